@@ -31,7 +31,11 @@ def main():
         sig = frontend.alpha_signature(info.node)
         if sig is None or getattr(info.node, '_pv_renamed_locals', None):
             continue
-        out['%s:%s' % (f.__globals__.get('__name__'), info.qualname)] = {'alpha': sig[0], 'order': sig[1]}
+        a = info.node.args
+        out['%s:%s' % (f.__globals__.get('__name__'), info.qualname)] = {
+            'alpha': sig[0], 'order': sig[1],
+            'params': [x.arg for x in a.posonlyargs + a.args + a.kwonlyargs],
+            'param_kinds': [len(a.posonlyargs), len(a.args), len(a.kwonlyargs)]}
     path = os.path.join(VERIF, 'baseline', 'pinned_names.json')
     with open(path, 'w') as fh:
         json.dump(out, fh, indent=0, sort_keys=True)
